@@ -93,9 +93,17 @@ func (encryptor *HashQuery) OnQuery(ctx context.Context, query mysql.OnQueryObje
 			continue
 		}
 
+		// the filter also returns comparisons whose left side is substring(column, ...) already: the client wrote it
+		// that way, or the same comparison was collected twice (WHERE of a nested sub-select) and has been rewritten
+		// by a previous iteration; there is nothing left to rewrite in them
+		lColumn, ok := item.Expr.Left.(*sqlparser.ColName)
+		if !ok {
+			continue
+		}
+
 		// column = 'value' ===> substring(column, 1, <HMAC_size>) = 'value'
 		item.Expr.Left = &sqlparser.SubstrExpr{
-			Name: item.Expr.Left.(*sqlparser.ColName),
+			Name: lColumn,
 			From: sqlparser.NewIntVal([]byte{'1'}),
 			To:   sqlparser.NewIntVal(hashSize),
 		}
